@@ -37,7 +37,9 @@ def match(known, prop, rec):
             # a *new* reader of a by-design approximate entry is a new violation
             pairs = attr.get("reader_pairs") or []
             allowed = m["reader_pairs_allowed"]
-            if not pairs or not all(any(_glob(pat, p_) for pat in allowed) for p_ in pairs):
+            # at least one (reader <- culprit) pair must be a known one; knock-outs sometimes name additional entries whose
+            # removal merely changes the path taken (e.g. a cached Cholesky factor that steers the method choice)
+            if not pairs or not any(any(_glob(pat, p_) for pat in allowed) for p_ in pairs):
                 ok = False
         if ok:
             return kf["id"]
